@@ -77,15 +77,19 @@ def svalApprox (tol : Rat) (expected got : SVal) : Bool :=
   | .sqrt v, .exact s => decide (0 ≤ s) && approx (4 * tol) v (s * s)
   | .exact _, .sqrt _ => false
 
+/-- a sample summary carries every required statistic, and every entry equals the statistic its
+name states -/
+def statsMatch (tol : Rat) (xs : List Rat) (stats : List (String × SVal)) : Bool :=
+  requiredStats.all (fun n => (stats.lookup n).isSome) &&
+  stats.all fun e => match statOf xs e.1 with
+    | some v => svalApprox tol v e.2
+    | none => false
+
 def summaryMatches (tol : Rat) (mv : MV) (s : Summary) : Bool :=
   match mv with
   | .scalar q => s.stats.map (·.1) == ["mean"] && s.stats.all fun e => svalApprox tol (.exact q) e.2
   | .sample [x] => s.stats.map (·.1) == ["mean"] && s.stats.all fun e => svalApprox tol (.exact x) e.2
-  | .sample xs =>
-    requiredStats.all (fun n => (s.stats.lookup n).isSome) &&
-    s.stats.all fun e => match statOf xs e.1 with
-      | some v => svalApprox tol v e.2
-      | none => false
+  | .sample xs => statsMatch tol xs s.stats
 
 /-! ### what a metric's NAME states -/
 
